@@ -5,6 +5,7 @@ import EaselModel.Getopts.Ranges
 import EaselModel.Getopts.RealOrder
 import EaselModel.Getopts.Tokens
 import EaselModel.Getopts.WfCheck
+import EaselModel.Getopts.AllocHist
 /-! # C14 — option processing resolves every configuration by the documented rules
 
 Property theorems about the executable model `EaselModel.Getopts` of `esl_getopts.c` (tied to the working tree by
@@ -23,6 +24,9 @@ and every sequence of sources:
 * (e) usage errors, never a crash: `every_history_ends_cleanly`, `cmdline_ends_cleanly`, `spoof_ends_cleanly`, `environment_ends_cleanly`,
   `configfile_ends_cleanly`, `setting_succeeds_iff`, `integer_argument_syntax`, `real_argument_syntax`, `real_argument_syntax_iff`, `wf_is_computable`, `strict_tables_are_wf`, `created_object_every_history_clean`, `char_argument_syntax`, `rejected_setting_changes_nothing`, `unknown_long_option`, `ambiguous_long_option`,
   `unknown_short_option`, `argument_to_flag`, `missing_argument_long`, `verifyConfig_spec`
+* allocation layer of `set_option` (`do_alloc`, `valloc[]`, block reuse across config files; `Alloc.lean`): `alloc_store_exact`,
+  `alloc_set_option_refines`, `alloc_valloc_after_set`, `alloc_source_refines`, `alloc_cfg_text_args`, `alloc_history_refines`,
+  `alloc_created_history`, `alloc_reuse_is_fresh`
 * (f) queries: `isUsed_iff`, `isDefault_of_default_setter`, `not_default_has_setter`
 
 Not proved here (checked by the differential run only): that the decimal `strtod`/`strtol` models agree with glibc;
@@ -579,5 +583,88 @@ example : intRangeOk (s "9") (some (s "0<=n<10")) = true ∧ intRangeOk (s "10")
 example : realRangeOk (s "0.5") (some (s "0<x<1")) = true ∧ realRangeOk (s "1") (some (s "0<x<1")) = false ∧
     realRangeOk (s "1e-3") (some (s "0<x<1")) = true ∧ realRangeOk (s "0.0") (some (s "0<x<1")) = false := by decide
 example : charRangeOk (s "y") (some (s "a<=c<=z")) = true ∧ charRangeOk (s "A") (some (s "a<=c<=z")) = false := by decide
+
+/-! ## the allocation layer: config-file values live in blocks that are reused (`do_alloc`, `valloc[]`)
+
+The byte-level object `GC` of `Alloc.lean` is what the driver runs.  These theorems say that erasing its allocation
+layer gives the abstract model all other theorems are about — so "the value is the one the last source gave" holds for
+the *stored bytes* whatever the lengths of the values successive config files gave — that no block is overrun or read
+without terminator, and what `valloc` is. -/
+
+/-- the store step of `set_option`, either mode, any previous content of the cell: nothing is overrun, the invariant
+    is kept, the stored C string is exactly the argument, and `valloc` is `max(old, strlen+1)` for a copied
+    config-file argument and `0` for every pointer assignment -/
+theorem alloc_store_exact {c : GC} (hinv : InvC c) (i : Nat) (arg : Option Str) (da : Bool)
+    (hnf : da = true → ∀ a, arg = some a → NulFree a) :
+    ∃ c1, storeC c i arg da = some c1 ∧ InvC c1 ∧
+      c1.abs = { c.abs with val := c.abs.val.set i (newVal (c.opt i) arg) } ∧
+      c1.setby = c.setby ∧ c1.opts = c.opts ∧
+      (i < c.val.length → c1.vallocOf i = storeValloc (c.opt i) (c.vallocOf i) arg da) := storeC_spec hinv i arg da hnf
+
+theorem alloc_set_option_refines {c : GC} (hinv : InvC c) (i : Nat) (arg : Option Str) (src : Nat) (da : Bool)
+    (hnf : da = true → ∀ a, arg = some a → NulFree a) :
+    (setOptionC c i arg src da).abs = setOption c.abs i arg src ∧ (setOptionC c i arg src da).Inv :=
+  setOptionC_abs hinv i arg src da hnf
+
+theorem alloc_valloc_after_set {c c' : GC} (hinv : InvC c) {i : Nat} (hi : i < c.val.length) {arg : Option Str} {src : Nat} {da : Bool}
+    {st : Status} {m : Bool} (hnf : da = true → ∀ a, arg = some a → NulFree a)
+    (h : setOptionC c i arg src da = .done c' st m) (hgood : verifyTypeRange (c.opt i) arg src = .good) (hs : c.setter i ≠ src) :
+    c'.vallocOf i = storeValloc (c.opt i) (c.vallocOf i) arg da := setOptionC_ok_valloc hinv hi hnf h hgood hs
+
+/-- every source, run on the byte-level object, is the abstract source on the erased object -/
+theorem alloc_source_refines {c : GC} (h : InvC c) (s : Src) (hs : SrcText s) :
+    (applySrcC c s).abs = applySrc c.abs s ∧ (applySrcC c s).Inv := applySrcC_abs h s hs
+
+/-- a config file without NUL bytes hands only C strings to `set_option` -/
+theorem alloc_cfg_text_args (opts : List Opt) (content : Str) (h : NulFree content) :
+    CfgArgsOk ((fileLines content).filterMap (cfgItem opts)) := cfgArgsOk_of_text opts content h
+
+theorem alloc_history_refines (ss : List Src) (c : GC) (hinv : InvC c) (htxt : ∀ s ∈ ss, SrcText s) :
+    (runAllC c ss).map (fun r => (r.1, r.2.abs)) = runAll c.abs ss ∧
+    ∀ outs c', runAllC c ss = some (outs, c') → InvC c' := runAllC_abs ss c hinv htxt
+
+/-- from `esl_getopts_Create` on, for every table passing the computable check and every history of sources (config
+    files being texts): the byte-level run never crashes, returns the statuses of the abstract run, ends in an object
+    whose erasure is the abstract result, and every stored value can be read back (no getter leaves its block) -/
+theorem alloc_created_history {opts : List Opt} {c : GC} (hc : createC opts = some c) (hw : wfB opts = true) (ss : List Src)
+    (htxt : ∀ s ∈ ss, SrcText s) :
+    ∃ outs c', runAllC c ss = some (outs, c') ∧ runAll c.abs ss = some (outs, c'.abs) ∧ InvC c' ∧ c'.readable = true ∧
+      ∀ o ∈ outs, Clean o.1 o.2 ∨ o = (.einval, true) := by
+  have hca : create opts = some c.abs := by rw [← createC_abs, hc]; rfl
+  obtain ⟨outs, g', h1, _, _, _, h5⟩ := created_object_every_history_clean hca hw ss
+  obtain ⟨ha, hi⟩ := runAllC_abs ss c (createC_inv hc) htxt
+  rw [h1] at ha
+  cases hr : runAllC c ss with
+  | none => rw [hr] at ha; cases ha
+  | some r =>
+    rw [hr] at ha
+    simp only [Option.map_some, Option.some.injEq, Prod.mk.injEq] at ha
+    have hinv' := hi r.1 r.2 (by rw [hr])
+    exact ⟨r.1, r.2, rfl, by rw [h1, ← ha.1, ← ha.2], hinv', hinv'.readable, by rw [ha.1]; exact h5⟩
+
+/-- `esl_getopts_Reuse` frees every block: the object is the freshly created one, so a history after `Reuse` is a
+    history on a fresh object -/
+theorem alloc_reuse_is_fresh {opts : List Opt} {c0 c : GC} (hc : createC opts = some c0) (ho : c.opts = opts) : reuseC c = c0 := by
+  rcases reuseC_eq_createC c with h | h
+  · rw [ho, hc] at h; exact (Option.some.inj h).symm
+  · rw [ho, hc] at h; cases h
+
+
+/-- the allocation layer on the demo table: two config files give `-n` a longer, then a shorter value; the block (4 bytes)
+    is reused, the stored string is exactly the second value, the tail of the first survives beyond the terminator -/
+def allocDemo : Option GC := (createC demo).bind fun c =>
+  match processConfigfileC c (s "-n 007\n") with
+  | .done c1 .ok false => (match processConfigfileC c1 (s "-n 3\n") with
+      | .done c2 .ok false => some c2
+      | _ => none)
+  | _ => none
+example : (allocDemo.map fun c => (c.valOf 3, c.vallocOf 3, (c.valOf 3).abs, c.setter 3, c.readable)) =
+    some (.heap ['3', NUL, '7', NUL], 4, .str (s "3"), 4, true) := by decide
+example : NulFree (s "-n 007\n") := by unfold NulFree; decide
+example : SrcText (.cfg (s "-n 3\n")) ∧ SrcText (.cmdline [s "prog"]) := ⟨by show NulFree _; unfold NulFree; decide, trivial⟩
+example : (createC demo).isSome = true ∧ wfB demo = true := by decide
+/-- then the command line sets `-n`: the block is freed (`valloc = 0`), the value points into `argv` -/
+example : (allocDemo.bind fun c => match processCmdlineC c [s "prog", s "-n", s "5"] with
+    | .done c' .ok false => some (c'.valOf 3, c'.vallocOf 3) | _ => none) = some (.stat (s "5"), 0) := by decide
 
 end EaselModel.Props.C14
